@@ -226,6 +226,17 @@ static void run(void) {
         }
         int nr = VF_T(200, 3000);
         for (int i = 0; i < nr; i++) case_cell(vf_rand_cell(&r, res), 1);
+        /* a dense walk along the 30 icosahedron edges (distortion vertices, 3-point edges): denser at the finest resolutions,
+         * where the substrate coordinates are largest */
+        int nper = res >= 14 ? VF_T(40, 400) : res >= 12 ? VF_T(12, 120) : VF_T(4, 40), cap = 90 * nper;
+        H3Index *ew = malloc((size_t)cap * 8);
+        int ne = vf_edge_walk_cells(res, nper, &r, ew, cap);
+        for (int i = 0; i < ne; i++)
+            if (VF_MINE(idx++)) {
+                case_cell(ew[i], 1);
+                vf_add("edgewalk.cells", 1);
+            }
+        free(ew);
     }
     vf_buf_free(d);
     /* candidate indexes: hostile cell generator re-moded to 2..5 x all 8 reserved values */
